@@ -49,7 +49,11 @@ class FifoExec(Exec):
 
     # ---- instrumented pieces
     def source(self):
+        import time
+        gaps = self.cfg.get('gaps')
         for i in range(self.cfg['n']):
+            if gaps and gaps[i]:
+                time.sleep(gaps[i])     # a slow, bursty source (virtual time)
             self.pulled += 1
             yield i
 
@@ -272,6 +276,10 @@ class FifoEnvH(Harness):
                         d = 2 if n <= 3 else 1
                     out.append(dict(mode='env', n=n, capacity=capacity, rx=rx, rex=rex, bound=d,
                                     cap=40000 if quick else 600000, **var))
+        # slow / bursty sources: the consumer and the executor sit idle while the source pauses
+        for gaps in ([0, 0.5], [0.5, 0, 0.5], [0, 1.0, 0.25]):
+            out.append(dict(mode='env', n=len(gaps), capacity=1, rx=True, rex=True, gaps=gaps, bound=1 if quick else 2,
+                            cap=40000 if quick else 600000, sched_opts=dict(timers='all', timer_window=50)))
         return out
 
     def new(self, cfg):
